@@ -138,7 +138,7 @@ def build_harness(release, report):
 
 
 def build_repl_binary(report):
-    """C10 speaks about REPL lines: the `xeh` binary itself (src/main.rs + src/repl.rs, glue that no library call reaches) is
+    """C10 speaks about REPL lines, C03 about snapshots (the REPL's /snapshot and /rollback are the ones users take): the `xeh` binary itself (src/main.rs + src/repl.rs, glue that no library call reaches) is
     built from /repo's working tree into the harness's target directory and handed to the harness, which pipes sessions
     into it and compares them with its mirror of `run_line` (harness/src/props/c10.rs repl_binary)."""
     tdir = f"{HARNESS}/target/repl"
@@ -261,7 +261,7 @@ def main():
     violations = []   # (text, replay dict)
     runs = []
     h_ok = build_harness(False, report)
-    if pid == "C10" and h_ok:
+    if pid in ("C10", "C03") and h_ok:
         h_ok = build_repl_binary(report)
         if not h_ok:
             report["harness_build_error"] = "the xeh binary did not build: " + report.get("repl_binary_build_error", "")
